@@ -1,6 +1,69 @@
 package main
 
+// The claimed properties and the rules that decide their structural necessary conditions.
+
+var commonAssumptions = []string{
+	"Static analysis of /repo's current source (go/types + go/ssa); nothing is executed. A held verdict means: every obligation of the listed rules holds on every path / for every interleaving permitted by the role model; it does not establish the behavioural property as a whole (see coverage.explanation).",
+	"Role model (DESIGN.md §2.1): U = any number of user goroutines entering through the exported API of package originium except Open/Close; C = DB.Close, not concurrent with U (API contract); F = the goroutine started by Open; W = the goroutine started by watermark.New; I = code reachable only from Open. Each Txn is used by one goroutine (C12's statement), so Txn fields are thread-confined.",
+	"Callees are resolved through go/types objects; interface calls by class hierarchy over the module's types; logger.Logger.Panicf does not return (checked for FLogger, assumed for user-installed loggers).",
+	"Lock identity is the struct field holding the mutex (instances of one type are not distinguished); no go/pointer analysis is available offline: containers are identified by the field they are loaded from.",
+	"Std effect tables (checker/effects.go, race.go): os.OpenFile/Create/Remove/Rename, (*os.File).Write/Sync/Close, binary.Write/io.Copy to an *os.File, container/list mutators, hash.Hash Write/Reset; third-party codecs (s2, frugal/thrift, murmur3) are trusted.",
+}
+
 var properties []*Property
+
+func init() {
+	properties = []*Property{
+		{ID: "C01", Rules: []string{"READ.ORDER", "READ.PUBLISH", "READ.FLUSHER", "READ.HIT", "READ.ENTRY", "CMP.ORDER", "CMP.TOMB", "CMP.SIB", "KWAY.ORDER"},
+			Explanation: "Decided: the newest-first skeleton of the read path without which no input can be answered correctly - age-ordered lists are appended at one end and looked up from that end, the flusher removes exactly the memtable it flushed, memtable rotation publishes the frozen memtable atomically with its successor and before the flusher sees it, L0 tables are written in rotation order (one flusher; Close flushes only after it stopped), a hit requires the same user key and goes through types.Value (tombstone = not found), a table without a visible version does not end the search, entry copies keep all four fields, compactions keep tombstones, feed the merge older-first, unlink and delete exactly what they merged, keys are ordered only by CompareKeys. NOT decided: the values returned; the arithmetic of Index.SearchLowerBound / Data.LowerBound (C10); which tables a compaction selects (overlap in user-key space); that this holds 'for every configuration'.",
+			Assumptions: commonAssumptions},
+		{ID: "C02", Rules: []string{"CLOSE.ORDER", "ORACLE.RESTART", "LEXNUM.SORT", "LEXNUM.WAL", "READ.FLUSHER", "LIVE.PAIR"},
+			Explanation: "Decided: Close settles the active memtable on every path (frozen, then flushed to a durable table or - empty - its wal removed), after the flusher has stopped, and publishes the closed state last; Open restarts the oracle strictly above max(version from wals, version from tables) with both recoveries taking the maximum over every entry, and finishes both watermarks there; nothing numeric is ordered as text (table file names at recovery, wal versions). NOT decided: that recovery parses the files correctly; equality of every key before and after.",
+			Assumptions: commonAssumptions},
+		{ID: "C03", Rules: []string{"DUR.ACK", "DUR.APPEND", "DUR.SYNCERR", "DUR.REMOVE", "DUR.PUBLISH", "DUR.SIB", "LEXNUM.WAL"},
+			Explanation: "Decided, for every point between two file-system operations (an all-paths ordering covers exactly that set): a commit is acknowledged only after its wal append was fsynced with the error checked; every file removal is justified on all paths (wal after the replacing table was fsynced and renamed into place, or after each of its entries was re-logged durably, or under the guard 'memtable empty'; compaction inputs only after the output table is durable and published); tables never appear half-made under the name recovery scans (tmp, write, fsync, rename); every table image goes through that writer; a wal created later always compares newer. NOT decided: that recovery rebuilds the right contents; 'no value that was never written is visible'; idempotence of replay across repeated crashes (argued in DESIGN.md, not checked).",
+			Assumptions: commonAssumptions},
+		{ID: "C04", Rules: []string{"ATOMIC.APPEND", "DUR.ACK"},
+			Explanation: "Decided (process-crash model of C03/C04: a crash falls between file-system operations): the write set of a transaction reaches the wal through one chain of call sites none of which is in a loop - one append, one fsync, one wal file - after which the memtable may rotate; so a crash leaves the transaction in the log entirely or not at all. NOT decided: torn batches under C14's stronger model (a batch frame would be needed); designs with begin/end records would make this rule UNDECIDED and need an extension.",
+			Assumptions: commonAssumptions},
+		{ID: "C05", Rules: []string{"SNAP.TS", "SNAP.BEGIN", "SNAP.COMMIT", "SNAP.GC", "SNAP.DONE"},
+			Explanation: "Decided: the read timestamp is assigned once at Begin from the oracle and every store lookup uses exactly key@readTs; oracle.readTs reads nextTs, registers nextTs-1 with readMark in one oracle.Mutex region and waits for commitMark on that value before returning it; newCommitTs allocates, increments, begins on commitMark and records in one region on one timestamp, Commit stamps every entry with it and finishes commitMark only after the append; version GC takes its threshold from readMark, deduplicates only at or below it and keeps the newest one there; View/Update defer Discard and the done-flags make readMark.Done exactly-once. NOT decided: that the per-key 'newest at or below the watermark' survives merges as a whole (C09), histories.",
+			Assumptions: commonAssumptions},
+		{ID: "C06", Rules: []string{"SER.SECTION", "SER.TS", "SNAP.BEGIN", "SNAP.COMMIT", "CONF.READFP", "CONF.WRITEFP", "CONF.ORDER", "CONF.WINDOW"},
+			Explanation: "Serializability is a property of histories and is declined as a whole. Decided: the skeleton of the Badger-style protocol, each item necessary - validation, apply and doneCommit form one oracle.writeLock section in timestamp order; timestamps are only ever nextTs+1 under oracle.Mutex; snapshot and commit registration as in C05; reads of update transactions are fingerprinted before the store is read, writes fingerprinted with the same hash, the conflict window is ct.ts > readTs. NOT decided: fingerprint collisions, the serial order itself.",
+			Assumptions: commonAssumptions},
+		{ID: "C07", Rules: []string{"CONF.READFP", "CONF.WRITEFP", "CONF.ORDER", "CONF.REFUSED", "CONF.WINDOW"},
+			Explanation: "Decided: Get records Hash(user key) before every store read of an update transaction and nothing on a buffer hit (under-/over-abort); modify records the write fingerprint and the buffered entry under the same user key on every success path; newCommitTs checks, then finishes the read mark, then cleans up, then allocates, and a refusal is effect-free while an acceptance always begins on commitMark; Commit applies only on the no-conflict branch and an empty write set never reaches validation; the comparison window is exactly ct.ts > readTs and cleanup keeps everything above readMark.DoneUntil (these two restate a comparison: spec-shaped, canonicalised). NOT decided: exactness over histories (collisions, interleavings).",
+			Assumptions: commonAssumptions},
+		{ID: "C08", Rules: []string{"TRACE.CONFINE", "TRACE.UPDATE", "TRACE.MISUSE", "CONF.REFUSED"},
+			Explanation: "Decided: nothing reachable from Txn.Set/Delete/SetEntry/Get/Discard stores to shared engine state or performs a mutating file effect (only the private buffer and the read-mark message), and every way from the API to a wal append passes through Txn.Commit; Update commits only on err == nil of the closure; the misuse guards (read-only, finished, empty key, closed DB) dominate every effect and each failing branch returns its documented error; a refused commit applies nothing. 'Nor after flushes, compactions and restarts' follows from confinement (the data never left the private buffer).",
+			Assumptions: commonAssumptions},
+		{ID: "C09", Rules: []string{"CMP.ORDER", "CMP.TOMB", "CMP.SIB", "KWAY.ORDER", "SNAP.GC", "DUR.REMOVE", "DUR.PUBLISH", "BLOOM.KEY"},
+			Explanation: "Decided: one comparator for versioned keys (no raw text comparison reaches a versioned key); nothing reachable from a compaction decides on Entry.Tombstone; both compactions run the same steps, feed the merge older level first, and unlink/delete exactly the tables they merged; the merge heap orders by CompareKeys with ties by list index so the newest entry wins; version discarding only at or below readMark and keeping the newest there; inputs are deleted only after the output is durable; the new handle's filter is built from the output's entries. NOT decided: the merged contents themselves; table selection (overlapLN in user-key space); cascaded compactions.",
+			Assumptions: commonAssumptions},
+		{ID: "C11", Rules: []string{"CODEC.POOL", "CODEC.SEQ", "CODEC.NARROW", "CODEC.PREFIX"},
+			Explanation: "Decided: no byte of a pooled buffer outlives Pool.Put (the second sentence of C11, for all schedules): values aliasing b.Bytes() are not returned, stored, sent or captured; each encoder/decoder pair (Data, Index, Footer, Meta, wal records) writes and reads the same sequence of field types in the same byte order and loop structure, and the footer length used by recovery equals the encoded size; no length is narrowed to 8/16 bits without a dominating range check; encoder and decoder both carry the previous key through the prefix-compression loop. NOT decided: byte equality for all inputs; s2 and frugal/thrift round trips (third party).",
+			Assumptions: commonAssumptions},
+		{ID: "C12", Rules: []string{"RACE.FIELDS", "READ.PUBLISH", "LIVE.BALANCE", "CODEC.POOL"},
+			Explanation: "Decided: the data-race clause, for all schedules - a static lockset analysis over every struct field, global and container of the module that is written after initialisation: each (write, access) pair that can run in concurrent roles holds a common lock (the writer exclusively) or both are atomic; locks are balanced; the rotation publishes before notifying the flusher (no Remove of a missing element); pooled bytes are not shared. NOT decided: 'no panic' in general; that results are allowed by C05-C07.",
+			Assumptions: commonAssumptions},
+		{ID: "C13", Rules: []string{"WM.WRITER", "WM.MONO", "WM.ADVANCE", "WM.SIGN", "WM.WAIT"},
+			Explanation: "Decided (finite control, every rule a guard/ownership fact about the single consumer): doneUntil is stored only by the consumer started once in New, marks are received only there, its bookkeeping is confined; every store is guarded by 'greater than the current value'; the stored value is the current mark or a heap minimum whose pending count was not positive in that iteration; Begin/Done encode done=false/true and the consumer counts +1/-1; the heap is ascending and shaped like its sibling; waiters are closed only at or below doneUntil; WaitForMark returns nil only on DoneUntil() >= ts or after its waiter closed, else the context error. WM.ADVANCE and WM.SIGN restate comparisons (spec-shaped). NOT decided: liveness beyond the pairing rules of C15.",
+			Assumptions: commonAssumptions},
+		{ID: "C14", Rules: []string{"DUR.ACK", "DUR.APPEND", "DUR.SYNCERR", "DUR.REMOVE", "DUR.PUBLISH", "DUR.SIB", "DUR.TORN"},
+			Explanation: "Decided: C14's second sentence is literally an ordering rule - nothing is acknowledged, and no file is deleted or relied upon, before the data that replaces it has been fsynced (DUR.ACK, DUR.APPEND, DUR.SYNCERR, DUR.REMOVE); a table becomes visible to recovery only by renaming a fsynced temporary file, so a partly written or empty table file cannot exist under a scanned name (DUR.PUBLISH, DUR.SIB); in the wal record loop a short read of the length prefix or of the body is classified as end of log before any failure return (DUR.TORN). NOT decided: torn batches inside one multi-record append (see C04); corruption of complete records (outside the fault model).",
+			Assumptions: commonAssumptions},
+		{ID: "C15", Rules: []string{"LIVE.ORDER", "LIVE.WAIT", "LIVE.BALANCE", "LIVE.PAIR", "CONF.ORDER"},
+			Explanation: "Decided: necessary conditions for deadlock freedom under every schedule - the lock-order graph (edges from may-held locksets) is acyclic and no lock class is re-acquired while held; no goroutine blocks on a channel, or waits for a watermark, holding a lock that the goroutine(s) it waits for may need before performing the matching operation (locks needed are computed from the counterpart's reachable code, transitively through its own blocking operations); locks are balanced on every path; commitMark.Begin is always followed by Done, a refused commit begins nothing, every flusher exit closes DB.closed, Close signals then waits, Open finishes both marks. NOT decided: bounded time; behaviour when the API contract is broken (commit racing with Close).",
+			Assumptions: commonAssumptions},
+		{ID: "C16", Rules: []string{"BLOOM.SIB", "BLOOM.RESET", "BLOOM.KEY", "BLOOM.SIGN", "RACE.FIELDS"},
+			Explanation: "Decided: Add and Contains compute the same bit index from the same hash functions in the same order, bits are only set, Contains denies only on a clear bit; the hash state is Reset on every path after Write; filters are built from and queried with ParseKey of the key, and every table handle's filter is built from that table's entries (writers and recovery); shared hash state is only used under levelManager.mu (RACE.FIELDS); under a GOARCH with 32-bit int no full-range unsigned hash passes through a signed int before %/index (thorough tier analyses GOARCH=386). NOT decided: the sizing arithmetic of New (m >= 1, k >= 1 for every n, p).",
+			Assumptions: commonAssumptions},
+		{ID: "C17", Rules: []string{"SKIP.DESCENT", "SKIP.UPDATE", "SKIP.COPY", "SKIP.CMP"},
+			Explanation: "Decided (narrow): the five descents use the same level-loop bounds and the same advance predicate next != nil && CompareKeys(next.Key, target) < 0, exact matches test CompareKeys == 0, nothing in the package orders keys as raw text; Set on an existing versioned key replaces value and tombstone and inserts nothing; the entry copies handed out keep all four fields. NOT decided: the linking algorithm and its interaction with random tower heights (shape analysis of a linked structure is out of reach), Size accounting.",
+			Assumptions: commonAssumptions},
+	}
+}
 
 func propertyByID(id string) *Property {
 	for _, p := range properties {
